@@ -161,13 +161,16 @@ def refresh (msk : Msk) (usk : Usk) (keep : Bool) (n : Rng) : Except Err Unit ×
 
 /-! ## public key, encapsulation, decapsulation -/
 
+/-- the public entry of a right: its newest secret, if activated -/
+def mpkEntry (p : Right × List (Bool × Sk)) : Option (Right × Sk) :=
+  match p.2.head? with
+  | some (true, sk) => some (p.1, sk)
+  | _ => none
+
 /-- `MasterSecretKey::mpk` -/
 def Msk.mpk (msk : Msk) : Mpk :=
   { auth := msk.auth, ntracers := msk.ntracers,
-    keys := msk.secrets.filterMap (fun (r, chain) =>
-      match chain.head? with
-      | some (true, sk) => some (r, sk)
-      | _ => none),
+    keys := msk.secrets.filterMap mpkEntry,
     structure_ := msk.structure_ }
 
 /-- the lookup inside `select_subkeys` -/
